@@ -254,6 +254,9 @@ class Term:
             return self
         elif isinstance(other, type(self)):
             return Model(self, other)
+        elif isinstance(other, (Intercept, NegatedIntercept)):
+            # x + 1, x + 0 -> the (negated) intercept is kept so '|' can resolve it later
+            return Model(self, other)
         elif isinstance(other, Model):
             return Model(self) + other
         else:  # pragma: no cover
@@ -276,6 +279,9 @@ class Term:
                 return Model()
             else:
                 return self
+        elif isinstance(other, Intercept):
+            # x - 1 -> same as x + 0
+            return Model(self, NegatedIntercept())
         elif isinstance(other, Model):
             if self in other.terms:
                 return Model()
